@@ -248,14 +248,22 @@ def unionTVs (env : Env) (tvs : List TVId) (v : Val) (m0 m : TVMap) : R × TVMap
       | _ => (.ok true, m')                               -- "impossible to figure out": accepted
 
 /-! ### `_is_instance` with the binding dict threaded through (the dict is mutated in place in Python).
-    Recursion is on the annotation only: the element loops take the checker of the element annotation as a function. -/
-/-- `all(f(x) for x in xs)`: lazy, stops at the first result that is not True; exceptions propagate -/
+    Recursion is on the annotation only: the element loops take the checker of the element annotation as a function.
+    WHICH dict every container hands to its elements, and whether `_check_union` evaluates every member, is generated
+    (`iterablePass`, `mappingPass`, `tupleVarPass`, `tuplePass`, `unionMembersPass`, `unionMembersEager`, `dispatchPass`). -/
+
+/-- the dict the next element (and in the end the caller) sees: `m` is what the loop handed to the element, `m'` what the element left -/
+def passNext : Pass → TVMap → TVMap → TVMap
+  | .same, _, m' => m'
+  | .copy, m, _ => m
+
+/-- `all(f(x) for x in xs)` with ONE dict: lazy, stops at the first result that is not True; exceptions propagate -/
 def allWith (f : Val → TVMap → R × TVMap) : List Val → TVMap → R × TVMap
   | [], m => (.ok true, m)
   | x :: xs, m => match f x m with
       | (.ok true, m') => allWith f xs m'
       | r => r
-/-- `all(fk(key) and fw(val) for key, val in items)` -/
+/-- `all(fk(key) and fw(val) for key, val in items)` with one dict -/
 def pairsWith (fk fw : Val → TVMap → R × TVMap) : List (Val × Val) → TVMap → R × TVMap
   | [], m => (.ok true, m)
   | (x, y) :: rest, m => match fk x m with
@@ -264,21 +272,39 @@ def pairsWith (fk fw : Val → TVMap → R × TVMap) : List (Val × Val) → TVM
           | r => r)
       | r => r
 
+/-- the same loops with the generated choice of the dict handed on -/
+def allWithP (p : Pass) (f : Val → TVMap → R × TVMap) : List Val → TVMap → R × TVMap
+  | [], m => (.ok true, m)
+  | x :: xs, m => match f x m with
+      | (.ok true, m') => allWithP p f xs (passNext p m m')
+      | (r, m') => (r, passNext p m m')
+def pairsWithP (p : Pass) (fk fw : Val → TVMap → R × TVMap) : List (Val × Val) → TVMap → R × TVMap
+  | [], m => (.ok true, m)
+  | (x, y) :: rest, m => match fk x m with
+      | (.ok true, m') => (match fw y (passNext p m m') with
+          | (.ok true, m'') => pairsWithP p fk fw rest (passNext p m m'')
+          | (r, m'') => (r, passNext p m m''))
+      | (r, m') => (r, passNext p m m')
+
+/-- a container checker called by `_is_instance`: it works on the dict `_is_instance` hands it -/
+def dispatch (m : TVMap) (res : R × TVMap) : R × TVMap := (res.1, passNext dispatchPass m res.2)
+
 mutual
 def isInst (env : Env) : A → Val → TVMap → R × TVMap
   | .cls c, v, m => (clsAnn env c v, m)
   | .any, _, m => (.ok true, m)
   | .tv t, v, m => tvBranch env t v m
-  | .listOf a, v, m => (match v with | .list xs => allWith (isInst env a) xs m | _ => (.ok false, m))
-  | .dictOf k w, v, m => (match v with | .dict kvs => pairsWith (isInst env k) (isInst env w) kvs m | _ => (.ok false, m))
+  | .listOf a, v, m => (match v with | .list xs => dispatch m (allWithP iterablePass (isInst env a) xs m) | _ => (.ok false, m))
+  | .dictOf k w, v, m =>
+      (match v with | .dict kvs => dispatch m (pairsWithP mappingPass (isInst env k) (isInst env w) kvs m) | _ => (.ok false, m))
   | .tupleOf items, v, m =>
       if !PedVerif.Gen.TypeTables.requiredArgsOk "Tuple" items.length then (.raisedPed, m) else
       (match v with
-       | .tuple xs => if xs.length != items.length then (.ok false, m) else zipInst env items xs m
+       | .tuple xs => if xs.length != items.length then (.ok false, m) else dispatch m (zipInst env items xs m)
        | _ => (.ok false, m))
-  | .tupleVar a, v, m => (match v with | .tuple xs => allWith (isInst env a) xs m | _ => (.ok false, m))
+  | .tupleVar a, v, m => (match v with | .tuple xs => dispatch m (allWithP tupleVarPass (isInst env a) xs m) | _ => (.ok false, m))
   | .union ms, v, m =>
-      (match membersInst env ms v m with
+      dispatch m (match membersInst env ms v m with
        | (.ok true, m') => (.ok true, m')                  -- `if matches_non_type_var: return True`
        | (.ok false, m') => unionTVs env (tvMembers ms) v m m'
        | r => r)
@@ -286,20 +312,22 @@ def isInst (env : Env) : A → Val → TVMap → R × TVMap
 /-- `all(_is_instance(val, type_) for val, type_ in zip(tup, type_args))` -/
 def zipInst (env : Env) : List A → List Val → TVMap → R × TVMap
   | a :: as, x :: xs, m => match isInst env a x m with
-      | (.ok true, m') => zipInst env as xs m'
-      | r => r
+      | (.ok true, m') => zipInst env as xs (passNext tuplePass m m')
+      | (r, m') => (r, passNext tuplePass m m')
   | _, _, m => (.ok true, m)
 /-- `any([_is_instance(value, typ) for typ in args_non_type_vars])`: a list — every non-TypeVar member is evaluated in
-    order with the same dict, an exception propagates at once -/
+    order, an exception propagates at once (`unionMembersEager = false`: a generator, `any` stops at the first True) -/
 def membersInst (env : Env) : List A → Val → TVMap → R × TVMap
   | [], _, m => (.ok false, m)
   | a :: rest, v, m =>
       if a.isTV then membersInst env rest v m else
       match isInst env a v m with
-      | (.ok b, m') => (match membersInst env rest v m' with
+      | (.ok b, m') =>
+          if b && !unionMembersEager then (.ok true, passNext unionMembersPass m m') else
+          (match membersInst env rest v (passNext unionMembersPass m m') with
           | (.ok b', m'') => (.ok (b || b'), m'')
           | r => r)
-      | r => r
+      | (r, m') => (r, passNext unionMembersPass m m')
 end
 
 /-! ### the call layer: stores -/
@@ -629,5 +657,90 @@ def runTop (env : Env) : Top → Stores → (Out × List (Option Out)) × Stores
 def runTops (env : Env) : List Top → Stores → List (Out × List (Option Out))
   | [], _ => []
   | x :: xs, s => let r := runTop env x s; r.1 :: runTops env xs r.2
+
+/-! ### variadic keyword parameters: which keyword arguments are matched against the annotation of `**kwargs`
+
+`_check_types_kwargs` runs over `not_yet_check_kwargs`: the keyword arguments of the call, in call order, minus a set of names
+(`kwargsFilter`, generated).  `named`: the names of the named parameters (the loop of `_check_type_param` visits every one of
+them, whether or not the call passes it); `vnames`: the names of the `*` / `**` parameters themselves. -/
+
+structure VarKw where
+  named : List String
+  vnames : List String
+  ann : A                               -- annotation of the `**` parameter
+  items : List (String × Val)           -- ALL keyword arguments of the call, in call order
+  pos : Nat                             -- number of checks of the call made before these (named parameters, `*args` values)
+
+def notYetChecked (k : VarKw) : List (String × Val) :=
+  match kwargsFilter with
+  | .visitedNamed => k.items.filter (fun kv => !k.named.contains kv.1)
+  | .signatureNames => k.items.filter (fun kv => !(k.named ++ k.vnames).contains kv.1)
+  | .everyKeyword => k.items
+
+def VarKw.checks (k : VarKw) : List (A × Val) := (notYetChecked k).map (fun kv => (k.ann, kv.2))
+
+/-- the checks of a call: those of the named parameters and of `*args`, then those of `**kwargs`, then the rest (the result) -/
+def spliceChecks (checks : List (A × Val)) : Option VarKw → List (A × Val)
+  | none => checks
+  | some k => checks.take k.pos ++ k.checks ++ checks.drop k.pos
+
+/-! ### class shapes: where the per-instance accessor takes the type parameters of the class from
+
+`is_instance_of_generic_class` is `Generic in type(self).__bases__`; `check_instance_of_generic_class_and_get_type_vars` zips the
+"type variables" of the class with the arguments of `__orig_class__` BY INDEX (`type_vars[type_var] = actual_types[i]`: an
+IndexError when there are fewer arguments than "type variables", raised in the accessor, outside every `try` of the checker).
+What typing makes of a class statement — `__bases__`, `__parameters__`, `__orig_bases__` — is observed, not modelled. -/
+
+structure Shape where
+  genericInBases : Bool                 -- `Generic in cls.__bases__`
+  params : List TVId                    -- `cls.__parameters__`
+  origBases : List (Bool × List A)      -- per entry of `cls.__orig_bases__`: is it `Generic[...]`; its type arguments (`get_type_arguments`)
+  declared : Option (List A)            -- the type arguments of the creating expression `Cls[X1, ..](...)` (none: `Cls(...)`)
+  inInit : Bool                         -- the call is made before `__init__` has returned: CPython has not set `__orig_class__` yet
+
+/-- the arguments of `__orig_class__` as the accessor finds them (none: the attribute is absent — not subscripted, or inside `__init__`) -/
+def Shape.actual (sh : Shape) : Option (List A) := if sh.inInit then none else sh.declared
+
+def Shape.typeVariables (sh : Shape) : Option (List A) :=
+  match genericParamsFrom with
+  | .firstOrigBase => sh.origBases.head?.map (·.2)
+  | .genericEntry => (sh.origBases.find? (·.1)).map (·.2)
+  | .parameters => some (sh.params.map A.tv)
+
+/-- `for i, type_var in enumerate(type_variables): type_vars[type_var] = actual_types[i]`; `none`: IndexError.
+    A "type variable" that is no TypeVar (`str` in `Dict[str, T]`) becomes a key no annotation ever asks for. -/
+def zipGenerics : List A → List A → TVMap → Option TVMap
+  | [], _, m => some m
+  | _ :: _, [], _ => none
+  | k :: ks, x :: xs, m => zipGenerics ks xs (match k with | .tv t => m.set t x | _ => m)
+
+/-- what `check_instance_of_generic_class_and_get_type_vars` returns; `none`: an exception that is no PedanticException -/
+def Shape.generics (sh : Shape) : Option TVMap :=
+  match sh.actual with
+  | none => some []
+  | some acts => (match sh.typeVariables with
+      | none => none
+      | some tvs => zipGenerics tvs acts [])
+
+/-- `is_instance_of_generic_class(instance)` -/
+def Shape.isGeneric (sh : Shape) : Bool :=
+  match genericTest with
+  | .directBase => sh.genericInBases
+  | .directBaseOrParameters => sh.genericInBases || !sh.params.isEmpty
+  | .parameters => !sh.params.isEmpty
+
+/-- the store of a method call on an instance of the class; `none`: the accessor raises (every call ends with that exception) -/
+def Shape.kind (sh : Shape) : Option StoreKind :=
+  if genericsFromOrigClass then
+    (if sh.isGeneric then sh.generics.map (StoreKind.genericInstance sh.params) else some .resetEachAccess)
+  else some (if sh.isGeneric then .genericInstance sh.params [] else .resetEachAccess)
+
+/-- a top-level step on an instance whose accessor raises: the first check of the call lets the exception through -/
+def runTopE (env : Env) (escapes : Bool) (t : Top) (s : Stores) : (Out × List (Option Out)) × Stores :=
+  if escapes then ((.escape, []), s) else runTop env t s
+
+def runTopsE (env : Env) : List (Bool × Top) → Stores → List (Out × List (Option Out))
+  | [], _ => []
+  | (e, x) :: xs, s => let r := runTopE env e x s; r.1 :: runTopsE env xs r.2
 
 end PedVerif.TypeVars
